@@ -11,7 +11,7 @@ from .c06 import valid_route
 
 ID = "C08"
 RULE = ("seeded small VRPTWs with integer data (1..3 customers, planted feasible route partitions and random ones, costs of either sign, capacity "
-        "not binding, depots that open at 0 or late), handed over as a finished VRPTW or (35%) assembled through the path-based object's own add_node/add_arc/set_depot with the depot named late and routes offered by name; from one graph: path-based with EVERY depot-to-depot sequence of distinct customers offered (the object decides which are valid), arc-based on the complete integer grid, sequence-based "
+        "not binding, depots that open at 0 or late), handed over as a finished VRPTW or (35%) assembled through the path-based object's own add_node/add_arc/set_depot with the depot named late and routes offered by name; from one graph: path-based with EVERY depot-to-depot sequence of distinct customers offered (the object decides which are valid), arc-based on the minimal complete grid (all service times attained along valid routes), sequence-based "
         "non-strict and strict with V = #customers and L = #customers + 2; constrained optima by exhaustive search over 2^n vectors (n <= 18) and "
         "minima of the default-penalty QUBOs, against an independent route-partition optimiser (subset DP over enumerated valid routes); "
         "non-trivial = reference problem feasible with >= 2 customers; distinct = distinct instance")
@@ -19,7 +19,7 @@ ASSUMPTIONS = [
     "capacity not binding (capacity and initial load large, demands 0)",
     "the route clock starts when the depot's window opens (every formulation and the reference; the path-based formulation started at 0 until fix bf32002); 30% of the instances have a depot that opens late",
     "no depot self-arc; customer-to-customer times >= 1 in generated instances: a zero-time cycle between customers is admitted by the arc-based model as a subtour (listed known finding, witness known/c08_zero_time_cycle.json)",
-    "complete grid = all integers up to the largest finite window end + total travel (all data are integers, so every attainable service time is on it)",
+    "complete grid = the set of service times attained along valid routes (the minimal complete grid of C08b.CompleteGrid) plus up to two unused points",
     "sequence-based comparison uses instances with <= 2 customers so that 2^n enumeration stays exact (n <= 18)",
 ]
 PARTIAL = []
@@ -142,21 +142,27 @@ def run_case(case, drv):
         for r in candidates:
             pb.add_route(list(r))
     sp = constrained_opt(pb)
-    # ---------------- arc on the complete integer grid
-    top = int(max([n[2] for n in g["nodes"]] + [n[3] for n in g["nodes"] if n[3] != core.INF])) + int(sum(a[4] for a in g["arcs"])) + 1
-    top = min(top, 9)
+    # ---------------- arc on a complete grid: every service time attained along some valid route (the minimal complete grid), plus a few
+    # extra points that no valid route uses (they must not matter)
+    arcd = {(a[0], a[1]): a for a in g["arcs"]}
+    times = {g["nodes"][0][2]}
+    for _, _, r in routes:
+        t = g["nodes"][0][2]
+        for a_, b_ in zip(r, r[1:]):
+            t = max(t + arcd[(a_, b_)][4], g["nodes"][b_][2])
+            times.add(t)
+    extra = sorted({t + Fraction(1, 2) for t in list(times)[:2]} | {Fraction(0)})
+    grid = sorted(times | set(extra[:2]))
+    top = 0
     ab = ArcBasedRoutingProblem(v)
-    ab.add_time_points(list(range(0, top + 1)))
+    ab.add_time_points([float(t) for t in grid])
     sa = constrained_opt(ab)
+    res.features.append(f"grid:{min(len(grid), 8)}")
     res.features.append(f"arc:{sa[0]}")
     for name, s in (("path", sp), ("arc", sa)):
         if s[0] == "too-large":
             continue
         if (s[0] == "feasible") != (ref is not None):
-            # the arc grid is truncated at 9: only trust infeasibility when the grid is really complete
-            if name == "arc" and top == 9 and s[0] == "infeasible":
-                res.features.append("arc:grid-truncated")
-                continue
             res.fail(f"{name}:feasibility", f"{name}-based model is {s[0]} but the reference VRPTW is {'feasible' if ref is not None else 'infeasible'}")
         elif ref is not None:
             if s[1] != ref:
